@@ -502,11 +502,14 @@ pub fn free_message(max_units: usize, max_data: usize, lead_ws: bool, indefinite
 /// A message whose unit headers come from `header`.
 pub fn message_with(header: BoxedStrategy<Header>, max_units: usize, max_data: usize, lead_ws: bool, indefinite: bool) -> BoxedStrategy<Msg> {
     // mostly 1..=max_units units; now and then a long message (N-th unit effects, counters)
+    let inner_unit = unit_with(header.clone(), max_data, false);
+    let last_unit = unit_with(header, max_data, true);
     prop_oneof![380 => (1..=max_units).boxed(), 19 => (max_units + 4..=max_units * 4 + 4).boxed(), 1 => prop::sample::select(vec![255usize, 256, 257, 258, 300]).boxed()]
         .prop_flat_map(move |n| {
+            // (the two unit strategies are built once, not per case: constructing them is expensive)
             let mut units: Vec<BoxedStrategy<Unit>> = Vec::new();
             for i in 0..n {
-                units.push(unit_with(header.clone(), max_data, indefinite && i + 1 == n));
+                units.push(if indefinite && i + 1 == n { last_unit.clone() } else { inner_unit.clone() });
             }
             (units, proptest::collection::vec((ws0(), ws0()), n - 1), 0usize..7, if lead_ws { ws0().boxed() } else { Just(B(vec![])).boxed() })
         })
